@@ -117,6 +117,16 @@ class Inst:
 
         def ev(c):
             c = c.replace(' ', '')
+            # boolean combinations of the known conditions
+            for op, fold in (('||', any), ('&&', all)):
+                if op in c:
+                    vals = [ev(p) for p in c.split(op)]
+                    return None if any(v is None for v in vals) else fold(vals)
+            if c.startswith('!'):
+                v = ev(c[1:])
+                return None if v is None else (not v)
+            if c.startswith('(') and c.endswith(')'):
+                return ev(c[1:-1])
             if c == 'arity==1':
                 return self.arity == 1
             if c == 'is_virtual<mp_first<MethodArgList>>::value':
@@ -359,6 +369,8 @@ def jobs(tier):
     for s in [x for x in shp if 'P' not in x and len(x) <= (5 if tier == 'thorough' else 4)]:
         configs.append((s, {'static': True, 'checks': True, 'indirect': False}))
         configs.append((s, {'static': True, 'checks': False, 'indirect': False}))
+    for s in [x for x in shp if 'P' in x and len(x) <= (4 if tier == 'thorough' else 3)]:
+        configs.append((s, {'static': True, 'checks': True, 'indirect': False}))
     fdesc = ['%s method::%s sha256:%s' % (t[k].where(), k, t[k].sha()) for k in
              ('resolve', 'resolve_uni', 'resolve_multi_first', 'resolve_multi_next', 'vptr', 'check_static_offset')]
     # C16: the call path only reads shared state - syntactic frame of the templates themselves
